@@ -502,10 +502,15 @@ fn payload_case(kind: &str, spec: &[FieldSpec], container: &str, o: serde_saphyr
         "enum-tuple" => payload_run::<PE>(&|n| PE::T(n as i32, format!("s{n}")), spec, container, o),
         "enum-struct" => payload_run::<PE>(&|n| PE::V { a: n as i32, b: vec![1, 2] }, spec, container, o),
         "tuple" => payload_run::<(i32, String)>(&|n| (n as i32, format!("s{n}")), spec, container, o),
+        "opt-none" => payload_run::<Option<i32>>(&|n| if n == 1 { None } else { Some(n as i32) }, spec, container, o),
+        "unit" => payload_run::<()>(&|_| (), spec, container, o),
+        "char" => payload_run::<char>(&|n| (b'a' + (n % 26) as u8) as char, spec, container, o),
+        "float" => payload_run::<f64>(&|n| n as f64 + 0.5, spec, container, o),
+        "bytes" => payload_run::<serde_bytes::ByteBuf>(&|n| serde_bytes::ByteBuf::from(vec![n as u8, 1, 2, 250]), spec, container, o),
         _ => payload_run::<Payload>(&|n| Payload { id: n, tags: vec![format!("t{n}")] }, spec, container, o),
     }
 }
-pub const PAYLOAD_KINDS: [&str; 19] = ["str", "str-quoted", "str-lines", "str-long", "str-empty", "int", "bool", "opt-some", "seq", "seq-empty", "seq-nested", "map", "map-empty",
+pub const PAYLOAD_KINDS: [&str; 24] = ["opt-none", "unit", "char", "float", "bytes", "str", "str-quoted", "str-lines", "str-long", "str-empty", "int", "bool", "opt-some", "seq", "seq-empty", "seq-nested", "map", "map-empty",
                                        "enum-unit", "enum-newtype", "enum-tuple", "enum-struct", "tuple", "struct"];
 
 pub fn run(args: &Args) -> i32 {
@@ -555,6 +560,8 @@ pub fn run(args: &Args) -> i32 {
                 for (ci, container) in containers.iter().enumerate() {
                     if *container != "seq-enum" && !strong_only { continue; }
                     if *container == "opt-struct" && spec.len() > 5 { continue; }
+                    // (an optional field holding a payload that is written as null reads back as None: YAML has one null)
+                    if *container == "opt-struct" && matches!(*kind, "unit" | "opt-none") { continue; }
                     // weak fields before their strong owner are outside the documented domain
                     k += 1;
                     if !all && (i + ki + ci) % 7 != 0 { continue; }
